@@ -28,7 +28,11 @@ pub(crate) fn verif_reset_user_id() {
 const MAX_USERS: usize = u32::MAX as usize;
 
 impl System {
-    pub(crate) async fn load_users(&mut self, users: Vec<UserState>) -> Result<(), IggyError> {
+    pub(crate) async fn load_users(
+        &mut self,
+        users: Vec<UserState>,
+        last_assigned_user_id: u32,
+    ) -> Result<(), IggyError> {
         info!("Loading users...");
         if users.is_empty() {
             info!("No users found, creating the root user...");
@@ -81,8 +85,13 @@ impl System {
         }
 
         let users_count = self.users.len();
-        let current_user_id = self.users.keys().max().unwrap_or(&1);
-        USER_ID.store(current_user_id + 1, Ordering::SeqCst);
+        // Continue after the last ID ever assigned (not after the highest surviving one),
+        // exactly as the state replay counts, so that runtime and replay never disagree.
+        let current_user_id = *self.users.keys().max().unwrap_or(&1);
+        USER_ID.store(
+            current_user_id.max(last_assigned_user_id) + 1,
+            Ordering::SeqCst,
+        );
         self.permissioner
             .init(&self.users.values().collect::<Vec<&User>>());
         self.metrics.increment_users(users_count as u32);
